@@ -138,6 +138,7 @@ def run(rep: core.Report):
     _r19k(rep)
     _r19l(rep)
     _r19m(rep)
+    _r19o(rep)
     from rules import shared_bcast
 
     shared_bcast.run(rep, "R19i", ["phonopy/phonon/thermal_displacement.py", "phonopy/phonon/random_displacements.py"])
@@ -234,6 +235,57 @@ def run(rep: core.Report):
     rep.instance("R19c", RD, "RandomDisplacements._setup_sampling_qpoints", core.src(part[0]) if part else "<vanished>", len(part) == 1 and core.src(part[0].targets[0]) == "(self._ii, self._ij)", "the ii/ij partition is not computed once by categorize_commensurate_points", line=part[0].lineno if part else 0)
 
 
+def _r19o(rep):
+    """Mean-square displacement projected on a direction: |n . e|^2 per atom, evaluated on complex symbols."""
+    from engine import symnp
+
+    rep.rule("R19o", "thermal displacements along a direction n: the weight of a mode on atom a is |sum_i n_i e_(a,i)|^2 / m_a (the n^T U n of the displacement matrix, cross terms n_i n_j U_ij included), and without a direction |e_(a,i)|^2 / m_a per Cartesian component -- the statements that build the per-mode weights are evaluated on a complex 6 x 2 eigenvector matrix of symbols (two atoms, two bands)", 2)
+    fn = core.find_def(TD, "ThermalDisplacements.run")
+    loops = [st for st in fn.body if isinstance(st, ast.For)]
+    if len(loops) != 1 or not (isinstance(loops[0].target, ast.Tuple) and isinstance(loops[0].iter, ast.Call) and core.src(loops[0].iter.func) == "enumerate"):
+        raise AnalysisError("R19o: ThermalDisplacements.run lost its loop 'for count, (fs, vecs) in enumerate(self._iter_mesh)'")
+    lp = loops[0]
+    inner = lp.target.elts[1]
+    if not (isinstance(inner, ast.Tuple) and len(inner.elts) == 2 and all(isinstance(x, ast.Name) for x in inner.elts)):
+        raise AnalysisError("R19o: the mesh iterator no longer yields (frequencies, eigenvectors)")
+    fs_name, vec_name = inner.elts[0].id, inner.elts[1].id
+    # the per-mode weight array: what is subscripted by the mode selection and contracted with Q2
+    cands = set()
+    for x in ast.walk(lp):
+        if isinstance(x, ast.Call) and core.src(x.func) in ("np.dot", "zip") and len(x.args) == 2 and isinstance(x.args[1], ast.Subscript) and isinstance(x.args[1].value, ast.Name):
+            cands.add(x.args[1].value.id)
+    cands -= {fs_name}
+    if len(cands) != 1:
+        raise AnalysisError(f"R19o: cannot identify the per-mode weights in ThermalDisplacements.run ({sorted(cands)})")
+    wname = next(iter(cands))
+    target = ast.Name(id=wname, ctx=ast.Load())
+    m = [sp.Symbol("m0", positive=True), sp.Symbol("m1", positive=True)]
+    m3 = [m[0]] * 3 + [m[1]] * 3
+    E = [[sp.Symbol(f"e{r}{b}") for b in range(2)] for r in range(6)]
+    nvec = [sp.Symbol(f"n{i}", real=True) for i in range(3)]
+
+    def absq(x):
+        return x.replace(lambda t: t.is_Pow and t.exp == 2 and isinstance(t.base, sp.Abs), lambda t: t.base.args[0] * sp.conjugate(t.base.args[0]))
+
+    for label, direction in (("projected on a direction", nvec), ("Cartesian components", None)):
+        env = {"self._masses": m, "self._masses3": m3, "self._projection_direction": direction, fs_name: [sp.Symbol("f0"), sp.Symbol("f1")], vec_name: E,
+               "self._temperatures": [sp.Symbol("T0")]}
+        evl = symnp.Evaluator(env, where="ThermalDisplacements.run")
+        pre = symnp.backward_slice([st for st in fn.body if st is not lp and not isinstance(st, ast.Expr)], ast.Tuple(elts=[ast.Name(id=n_.id, ctx=ast.Load()) for st in symnp.backward_slice(lp.body, target, opaque=("np",)) for n_ in ast.walk(st) if isinstance(n_, ast.Name) and isinstance(n_.ctx, ast.Load)], ctx=ast.Load()), opaque=("np", fs_name, vec_name))
+        pre = [st for st in pre if st.lineno < lp.lineno and not any(isinstance(c, ast.Call) and core.src(c.func) in ("np.zeros", "np.zeros_like") for c in ast.walk(st))]
+        symnp.run_block(evl, pre)
+        symnp.run_block(evl, symnp.backward_slice(lp.body, target, opaque=("np",)))
+        got = evl.env.get(wname)
+        if direction is not None:
+            want = [[sp.expand(sum(nvec[i] * E[3 * a + i][b] for i in range(3)) * sp.conjugate(sum(nvec[i] * E[3 * a + i][b] for i in range(3))) / m[a]) for a in range(2)] for b in range(2)]
+        else:
+            want = [[sp.expand(E[r][b] * sp.conjugate(E[r][b]) / m3[r]) for r in range(6)] for b in range(2)]
+        ok = symnp.shape(got) == symnp.shape(want) and all(sp.expand(absq(sp.expand(got[b][a])) - want[b][a]) == 0 for b in range(len(want)) for a in range(len(want[0])))
+        shown = str(absq(sp.expand(got[0][0])))[:200] if symnp.shape(got) == symnp.shape(want) else f"shape {symnp.shape(got)}"
+        rep.instance("R19o", TD, "ThermalDisplacements.run", f"{label}: weight[band][atom or component] = " + ("|n . e_a|^2 / m_a" if direction is not None else "|e_r|^2 / m_r"), ok,
+                     f"{label}: the weight of band 0 on the first atom / component is {shown}, not " + ("|n0 e00 + n1 e10 + n2 e20|^2 / m0: the cross terms n_i n_j conj(e_i) e_j are missing, so the projected mean-square displacement is not n^T U n for any direction off the Cartesian axes on a site with off-diagonal U" if direction is not None else "|e00|^2 / m0"), line=lp.lineno)
+
+
 def _r19m(rep):
     """D-type -> C-type eigenvectors at the q = -q + G points: the phase of atom kappa multiplies the ROWS of kappa."""
     from engine import frames
@@ -284,8 +336,6 @@ def _r19g(rep):
     T = "ThermalDisplacements"
     M = "ThermalDisplacementMatrices"
     S = [
-        (f"{T}.run", "assign", "vecs2", "(abs(vecs) ** 2).T / masses", "the squared eigenvector components are not divided by the masses"),
-        (f"{T}.run", "assign", "vecs2", "np.abs(np.dot(vecs.T.reshape(-1, 3), self._projection_direction).reshape(-1, len(masses))) ** 2 / masses", "the projected squared eigenvector components are not |e . n|^2 per atom divided by the masses"),
         (f"{T}.run", "assign", "self._displacements", "disps / (count + 1)", "the sum over q-points is not divided by the number of q-points"),
         (f"{T}.run", "aug", "disps", "np.outer(self._get_Q2(f, temps), v2)", "the mode contribution is not Q2(f, T) |e|^2 / m"),
         (f"{T}.run", "aug", "disps[0]", "np.dot(Q2, vecs2[valid_indices])", "the single-temperature contribution is not sum over modes of Q2 |e|^2 / m"),
@@ -589,7 +639,8 @@ def selftest():
     b("D-type transform without the transpose", RD, "        dm = ((V * (V.conj() * dm).T).T).real  # C-type to D-type", "        dm = ((V * (V.conj() * dm)).T).real  # C-type to D-type", "R19f", "_C_to_D")
     b("q-points not divided by N", RD, "        for q in self._comm_points[self._ii] / float(N):", "        for q in self._comm_points[self._ii] * float(N):", "R19f", "_prepare")
     n("mass normalisation as two square roots", RD, "        u = np.array((u_ii + u_ij) / np.sqrt(mass * N), dtype=\"double\", order=\"C\")", "        u = np.array((u_ij + u_ii) / np.sqrt(N * mass), dtype=\"double\", order=\"C\")")
-    b("displacements multiplied by the masses", TD, "                vecs2 = (abs(vecs) ** 2).T / masses", "                vecs2 = (abs(vecs) ** 2).T * masses", "R19g", "vecs2")
+    b("displacements multiplied by the masses", TD, "                vecs2 = (abs(vecs) ** 2).T / masses", "                vecs2 = (abs(vecs) ** 2).T * masses", "R19o", "Cartesian components")
+    b("projected displacement without the cross terms", TD, "                p_vecs = np.dot(\n                    vecs.T.reshape(-1, 3), self._projection_direction\n                ).reshape(-1, len(masses))\n                vecs2 = np.abs(p_vecs) ** 2 / masses", "                vecs2 = np.dot((np.abs(vecs) ** 2).T.reshape(-1, len(masses), 3), self._projection_direction**2) / masses", "R19o", "projected on a direction")
     b("q-point average off by one", TD, "        self._displacements = disps / (count + 1)", "        self._displacements = disps / count", "R19g", "_displacements")
     b("displacement matrix without conjugation", TD, "                    c[i] = np.outer(v, v.conj()) / m", "                    c[i] = np.outer(v, v) / m", "R19g", "c[i]")
     b("CIF normalisation with column norms of the inverse lattice", TD, "            N = np.diag([np.linalg.norm(x) for x in np.linalg.inv(A)])", "            N = np.diag(np.linalg.norm(np.linalg.inv(A), axis=0))", "R19h", "ANinv")
